@@ -125,7 +125,11 @@ static void cb_created(qb_ipcs_connection_t *c)
 	if (sc->lc != LC_ACCEPTED) sviol("ipcs:created-out-of-order", c, "state %d", sc->lc);
 	if (qb_ipcs_context_get(c) != sc) sviol("ipcs:context-lost", c, "created");
 	sc->lc = LC_CREATED;
-	if (cfg.lifecycle_random && vp_chance(&srng, 1, 10)) { sc->created_disconnected = 1; bed_log(L_SRV_NOTE, (uint64_t)(uintptr_t)c, 0, 0, 0, 0, "disconnect-in-created"); qb_ipcs_disconnect(c); return; }
+	if (cfg.lifecycle_random && vp_chance(&srng, 1, 10)) { sc->created_disconnected = 1; bed_log(L_SRV_NOTE, (uint64_t)(uintptr_t)c, 0, 0, 0, 0, "disconnect-in-created"); qb_ipcs_disconnect(c);
+		/* service-wide control operations while this connection is half way out (still listed, transport gone) */
+		if (!svc_destroyed && vp_chance(&srng, 1, 2)) { static const enum qb_ipcs_rate_limit RL[] = { QB_IPCS_RATE_FAST, QB_IPCS_RATE_SLOW, QB_IPCS_RATE_OFF, QB_IPCS_RATE_OFF_2, QB_IPCS_RATE_NORMAL };
+			bed_log(L_SRV_NOTE, (uint64_t)(uintptr_t)c, 0, 0, 0, 0, "rate-limit-after-disconnect-in-created"); qb_ipcs_request_rate_limit(svc, RL[vp_u(&srng, 5)]); qb_ipcs_request_rate_limit(svc, QB_IPCS_RATE_NORMAL); }
+		return; }
 	if (cfg.lifecycle_random) random_lifecycle_action(sc, "created");
 }
 static int32_t cb_msg(qb_ipcs_connection_t *c, void *data, size_t size)
